@@ -164,7 +164,7 @@ fn build(c: &ChainSpec, violation: Option<&Violation>) -> Result<Built3, String>
 			_ => window_around(c.at, 30 * day, 300 * day),
 		}
 	};
-	let name = |s: &str| DnSpec(vec![(DnTypeSpec::Org, DnValueSpec { kind: StrKind::Utf8, text: s.into() })]);
+	let name = |s: &str| DnSpec(vec![(DnTypeSpec::Org, DnValueSpec::new(StrKind::Utf8, s))]);
 
 	// name constraints
 	let subnet = SubtreeSpec::Ip(CidrSpec::Prefix { addr: Hex(addr_in(&c.net.0, &vec![0; c.net.0.len()], c.prefix)), prefix: c.prefix, ctor: 0 });
